@@ -37,6 +37,7 @@ FLAG_STALE_OK = {
 INIT_BEFORE_PARTIAL = {
   ("collision_driver.collision", "Data.nacon"),
   ("collision_driver.collision", "Data.ncollision"),
+  ("collision_driver.sap_broadphase", "temp:collision_driver.sap_broadphase:projection_lower"),
   ("collision_driver.sap_broadphase", "temp:collision_driver.sap_broadphase:sort_index"),
   ("constraint.make_constraint", "Data.efc.Jqvel"),
   ("constraint.make_constraint", "Data.efc.jtdaj_nblock"),
@@ -45,6 +46,7 @@ INIT_BEFORE_PARTIAL = {
   ("constraint.make_constraint", "Data.nf"),
   ("constraint.make_constraint", "Data.nl"),
   ("constraint.make_constraint", "temp:constraint.make_constraint:efc_nnz"),
+  ("forward.implicit", "Data.qLU"),  # _map_m2d stores every D entry (M value or 0, if/else) before deriv_rne_vel accumulates and the LU factorisation overwrites in place
   ("derivative.deriv_smooth_vel", "temp:forward.implicit:qDeriv"),
   ("derivative.deriv_smooth_vel", "temp:forward.implicit:qH_M"),
   ("derivative.deriv_smooth_vel", "temp:inverse.discrete_acc:qDeriv"),
